@@ -90,7 +90,7 @@ Echo6Set == {[k |-> "echo6", n |-> id, car |-> sq, pos |-> 0, val |-> ap[1] * 16
 \* reading "be": the words are big-endian as in Words(b); reading "le": every word is byte-swapped, so that the
 \* library's little-endian accumulator (MechAcc) sees the same numbers.
 FoldLens == {6, 7, 8, 20, 21, 40, 64, 200, 208, 1500}
-FoldSet == {[k |-> "fold", n |-> n, car |-> c, pos |-> rd, val |-> v] : n \in FoldLens, c \in 0..2, rd \in 0..1, v \in 1..2}
+FoldVecSet == {[k |-> "fold", n |-> n, car |-> c, pos |-> rd, val |-> v] : n \in FoldLens, c \in 0..2, rd \in 0..1, v \in 1..2}
 FoldWord(x, j) ==
   LET nw == x.n \div 2
       w  == CASE x.car = 0 -> IF j = 1 THEN x.val * 32767 ELSE 0
@@ -106,12 +106,6 @@ CritData == {190, 191, 247, 248, 446, 503, 992, 1392}
 CritTotals == {1, 2, 255, 256, 512, 32768, 65023, 65279, 65534, 65535}
 Crit6Set == {[k |-> "crit6", n |-> dl, car |-> t, pos |-> 0, val |-> ap[1] * 16 + ap[2]] :
                dl \in CritData, t \in CritTotals, ap \in {<<1, 2>>, <<3, 5>>}}
-CritMsg(id, dl) == <<128, 0, 0, 0>> \o Be16(id) \o <<0, 1>> \o [i \in 1..dl |-> (i * 7 + 3) % 256]
-CritBytes(x) ==
-  LET ph   == Pseudo6(V6[x.val \div 16], V6[x.val % 16], 8 + x.n)
-      base == Sum(ph \o CritMsg(0, x.n))
-  IN  ph \o CritMsg(Sub1c(x.car, base), x.n)
-
 \* the transmission that precedes the echo request of a pair6 vector
 PreFns == <<"ICMP6SendNeighbourSolicitation", "ICMP6SendNeighborAdvertisement", "ICMP6SendRouterAdvertisement",
             "ICMP6SendRouterSolicitation", "ICMP6SendEchoRequest", "ICMP4SendEchoRequest">>
@@ -119,7 +113,7 @@ Pair6Set == {[k |-> "pair6", n |-> id, car |-> 1, pos |-> pf, val |-> ap[1] * 16
                id \in {1, 4660, 65535}, pf \in 1..Len(PreFns), ap \in V6Pairs}
 
 Descriptors ==
-  (IF "fold" \in Families THEN FoldSet ELSE {}) \cup (IF "crit6" \in Families THEN Crit6Set ELSE {}) \cup
+  (IF "fold" \in Families THEN FoldVecSet ELSE {}) \cup (IF "crit6" \in Families THEN Crit6Set ELSE {}) \cup
   (IF "pair6" \in Families THEN Pair6Set ELSE {}) \cup
   (IF "raw" \in Families THEN RawSet ELSE {}) \cup (IF "pat" \in Families THEN PatSet ELSE {}) \cup
   (IF "hdr" \in Families THEN HdrSet ELSE {}) \cup (IF "echo4" \in Families THEN Echo4Set ELSE {}) \cup
@@ -151,6 +145,12 @@ EchoMsg(typ, id, sq) == <<typ, 0, 0, 0>> \o Be16(id) \o Be16(sq) \o Hello
 
 \* RFC 8200 section 8.1 pseudo-header: source, destination, 32-bit upper-layer length, 3 zero bytes, next header 58
 Pseudo6(src, dst, len) == src \o dst \o <<0, 0>> \o Be16(len) \o <<0, 0, 0, 58>>
+
+CritMsg(id, dl) == <<128, 0, 0, 0>> \o Be16(id) \o <<0, 1>> \o [i \in 1..dl |-> (i * 7 + 3) % 256]
+CritBytes(x) ==
+  LET ph   == Pseudo6(V6[x.val \div 16], V6[x.val % 16], 8 + x.n)
+      base == Sum(ph \o CritMsg(0, x.n))
+  IN  ph \o CritMsg(Sub1c(x.car, base), x.n)
 
 Bytes(x) ==
   CASE x.k = "raw" -> IF x.n = 0 THEN <<>> ELSE IF x.n = 1 THEN <<x.pos>> ELSE <<x.pos, x.val>>
